@@ -5,6 +5,9 @@ import CV.Proofs.CatModels
 The Impl models take the symbol as an unbounded `Nat` (a `usize`, or any label type), so "for
 every symbol value, however large" is literal.  The coder half of C09 (a failed encode leaves
 the coder intact) belongs to the coder components and rests only on `enc s = none`.
+`C09_generic_encoder` assumes pairwise distinct labels (`Nodup`); a generic encoder built from
+a non-contiguous decoder with repeated symbols is the open known finding described in
+`C05_cat.lean` (it still answers `None` outside the label list, but is not the decoder's model).
 -/
 namespace CV.Cat
 open CV
@@ -28,6 +31,13 @@ theorem C09_uniform_alias {B P range : Nat} (hP : P ≤ B) (h2 : 2 ≤ range) (h
     Uniform.enc B P { ppb := 2 ^ P / range, last := range - 1 } s = .ok none :=
   C09_uniform hP h2 hle s (by have := pow_le_pow_of_le hP; omega)
 
+/-- the same for whatever `UniformModel::new` returned -/
+theorem C09_uniform_new {B P range : Nat} {u : Uniform} (hP1 : 1 ≤ P) (hP : P ≤ B) (hPU : P ≤ U)
+    (hr : range < 2 ^ U) (h : Uniform.new B P range = .ok u) (s : Nat) (hs : range ≤ s) :
+    u.enc B P s = .ok none := by
+  obtain ⟨h2, hle, rfl⟩ := Uniform.new_inv hP1 hP hPU hr h
+  exact C09_uniform hP h2 hle s hs
+
 /-- hash-table encoder: a symbol that is not one of the constructor's symbols gives `None` -/
 theorem C09_ncenc {Sym : Type} [DecidableEq Sym] [Inhabited Sym] {B P : Nat}
     {syms : List Sym} {probs : List Nat} {infer : Bool} {m : NcEnc Sym}
@@ -47,6 +57,7 @@ theorem C09_generic_encoder {Sym : Type} [DecidableEq Sym] [Inhabited Sym]
   simp only [labelledModel, if_neg hs]
 
 /-! non-vacuity: `UniformModel::<u8, 8>::new(10)` and the symbol `259 = 256 + 3` -/
+example : Uniform.new 8 8 10 = .ok { ppb := 25, last := 9 } := by rfl
 example : Uniform.enc 8 8 { ppb := 25, last := 9 } 259 = .ok none := by rfl
 example : Uniform.enc 8 8 { ppb := 25, last := 9 } 3 = .ok (some (75, 25)) := by rfl
 example : Contiguous.enc 8 { cdf := [0, 100, 200, 0] } (2 ^ 32 + 1) = .ok none := by rfl
@@ -54,6 +65,7 @@ example : Contiguous.enc 8 { cdf := [0, 100, 200, 0] } (2 ^ 32 + 1) = .ok none :
 #print axioms C09_contiguous
 #print axioms C09_uniform
 #print axioms C09_uniform_alias
+#print axioms C09_uniform_new
 #print axioms C09_ncenc
 #print axioms C09_generic_encoder
 
